@@ -4,6 +4,7 @@ from pathlib import Path
 from typing import Any, Literal, Optional, Self, Union, overload
 
 import numpy as np
+from numpy.lib.array_utils import normalize_axis_index
 from numpy.typing import DTypeLike, NDArray
 
 from quantem.core.io.serialize import AutoSerialize
@@ -353,6 +354,17 @@ class Dataset(AutoSerialize):
         """
         return self.array.min(axis=axes)
 
+    def _normalize_axes(self, axes: int | tuple[int, ...] | None) -> tuple[int, ...]:
+        """
+        Axes as a tuple of non-negative ints: None selects all axes, a scalar a single axis,
+        negative indices count from the last axis (NumPy convention), out-of-range axes raise.
+        """
+        if axes is None:
+            return tuple(range(self.ndim))
+        if isinstance(axes, int | float):
+            axes = (axes,)
+        return tuple(normalize_axis_index(int(ax), self.ndim) for ax in axes)
+
     @overload
     def pad(
         self,
@@ -475,8 +487,7 @@ class Dataset(AutoSerialize):
         elif isinstance(axes, int | float):
             axes = (int(axes),)
             crop_widths = (crop_widths[0],)  # Take first crop_width for single axis
-        else:
-            axes = tuple(int(a) for a in axes)
+        axes = self._normalize_axes(axes)
 
         if len(crop_widths) != len(axes):
             raise ValueError("Length of crop_widths must match length of axes.")
@@ -552,12 +563,7 @@ class Dataset(AutoSerialize):
         if reducer_norm not in ("sum", "mean"):
             raise ValueError("reducer must be 'sum' or 'mean'")
 
-        if axes is None:
-            axes = tuple(range(self.ndim))
-        elif isinstance(axes, int | float):
-            axes = (int(axes),)
-        else:
-            axes = tuple(int(ax) for ax in axes)
+        axes = self._normalize_axes(axes)
 
         if isinstance(bin_factors, numbers.Integral):
             bin_factors = (int(bin_factors),) * len(axes)
@@ -667,12 +673,7 @@ class Dataset(AutoSerialize):
         Dataset or None
             A new resampled dataset if `modify_in_place` is False, otherwise None.
         """
-        if axes is None:
-            axes = tuple(range(self.ndim))
-        elif isinstance(axes, int | float):
-            axes = (int(axes),)
-        else:
-            axes = tuple(int(a0) for a0 in axes)
+        axes = self._normalize_axes(axes)
 
         if (out_shape is None) == (factors is None):
             raise ValueError("Specify exactly one of out_shape or factors.")
